@@ -1,4 +1,5 @@
 import KafVerif.Model.AclGate
+import KafVerif.Model.AclSession
 import KafVerif.Gen.C24Guards
 /-!
 C24 — With ACLs on, unauthorized requests change nothing and leak nothing.
@@ -17,6 +18,18 @@ type).  Theorems:
 * `perItem_eq_allowed_only`  … and the store ends up exactly as if only the allowed items had been sent
 * `perItem_deny_bits`        … and exactly the denied items are answered "denied"
 * `ungated_violates`         the pre-fix Metadata arm (no gate in front of the auto-create) violates the property
+
+Session model (`Model/AclSession.lean`: ONE handler, many requests, several principals):
+* `decision_depends_only_on_request`  for EVERY handler state whose authorizer was built from `cfg` (whatever the
+                             denial log / counters hold) and EVERY history of earlier requests from any principals,
+                             the decision of the next request is `Acl.allows cfg (principal, action, resource, name)`
+* `session_decisions_eq`     the decisions of a whole session are `map (allows cfg)` of its requests
+* `decision_history_independent`  two different histories give the same decision for the same request
+* `session_denied_noop`      gate behind the session: after ANY history, a request all of whose items `allows cfg`
+                             denies leaves the store unchanged and is answered `denied` item by item
+* `session_perItem_denied_untouched`  … per-item gate: a resource whose items `allows cfg` denies keeps its value
+* `memoised_decisions_violate`  a handler that memoises decisions under `action|resource|principal|name` does NOT
+                             have the property (alice + `orders-x|secret`, then `alice|orders-x` + `secret`)
 -/
 namespace KafVerif.AclGate
 
@@ -197,5 +210,176 @@ example : handle .perItem (· + 1) [(1, 5)] [⟨1, false⟩, ⟨2, true⟩] = ([
 example : handle .whole (· + 1) [(1, 5)] [⟨1, false⟩, ⟨2, true⟩] = ([(1, 5)], [.denied, .denied]) := by decide
 example : granOf ⟨0, [⟨0, 1, 1, true, true⟩, ⟨1, 0, 0, true, false⟩]⟩ = .perItem := by decide
 example : guardsComplete [⟨3, [⟨1, 0, 0, true, false⟩]⟩] = false := by decide
+
+/-! ## sessions: one handler, many requests, several principals -/
+end KafVerif.C24
+
+namespace KafVerif.AclSession
+open KafVerif KafVerif.Acl KafVerif.AclGate
+
+theorem logAuthzDenied_authorizer (st : State) (r : Acl.Req) : (logAuthzDenied st r).authorizer = st.authorizer := by
+  unfold logAuthzDenied
+  simp only
+  split
+  · split <;> rfl
+  · rfl
+
+theorem step_authorizer (st : State) (r : Request) : (step st r).1.authorizer = st.authorizer := by
+  unfold step
+  simp only
+  split
+  · rfl
+  · rw [logAuthzDenied_authorizer]; rfl
+
+theorem step_decision (st : State) (r : Request) : (step st r).2 = allowsWith matchesRule st.authorizer r.req := by
+  unfold step
+  simp only
+  split <;> simp_all
+
+theorem run_authorizer (st : State) (hist : List Request) : (run st hist).authorizer = st.authorizer := by
+  unfold run
+  induction hist generalizing st with
+  | nil => rfl
+  | cons r rest ih => rw [List.foldl_cons, ih, step_authorizer]
+
+theorem authItems_authorizer (p a r : List Char) (st : State) (names : List (Nat × List Char)) :
+    (authItems p a r st names).1.authorizer = st.authorizer := by
+  induction names generalizing st with
+  | nil => rfl
+  | cons x rest ih => simp only [authItems]; rw [ih, step_authorizer]
+
+theorem authItems_items (p a r : List Char) (st : State) (names : List (Nat × List Char)) :
+    (authItems p a r st names).2
+      = names.map fun x => ⟨x.1, allowsWith matchesRule st.authorizer ⟨p, a, r, x.2⟩⟩ := by
+  induction names generalizing st with
+  | nil => rfl
+  | cons x rest ih =>
+    simp only [authItems, List.map_cons]
+    rw [ih, step_authorizer, step_decision]
+
+theorem stepG_authorizer (s : State × Store) (g : GReq) : (stepG s g).1.1.authorizer = s.1.authorizer := by
+  unfold stepG
+  simp only
+  rw [authItems_authorizer]
+
+theorem runG_authorizer (s : State × Store) (hist : List GReq) : (runG s hist).1.authorizer = s.1.authorizer := by
+  unfold runG
+  induction hist generalizing s with
+  | nil => rfl
+  | cons g rest ih => rw [List.foldl_cons, ih, stepG_authorizer]
+
+/-- the items the gate sees are judged by the handler's authorizer alone -/
+theorem stepG_eq (s : State × Store) (g : GReq) :
+    ((stepG s g).1.2, (stepG s g).2)
+      = handle g.gran g.eff s.2
+          (g.names.map fun x => ⟨x.1, allowsWith matchesRule s.1.authorizer ⟨g.principal, g.action, g.resource, x.2⟩⟩) := by
+  unfold stepG
+  simp only
+  rw [authItems_items]
+
+end KafVerif.AclSession
+
+namespace KafVerif.C24
+open KafVerif KafVerif.Acl KafVerif.AclGate KafVerif.AclSession
+
+/-- (7) THE DECISION IS A FUNCTION OF (config, principal, action, resource) ONLY.  For every handler state `st` whose
+authorizer was built from `cfg` — whatever its denial log, counters and clock hold — and every history `hist` of
+earlier requests (any principals, any names, any outcome), the decision of the next request `r` equals the pure ACL
+decision `Acl.allows cfg r.req`. -/
+theorem decision_depends_only_on_request (cfg : Config) (st : State) (hst : st.authorizer = newAuthorizer cfg)
+    (hist : List Request) (r : Request) :
+    (step (run st hist) r).2 = Acl.allows cfg r.req := by
+  rw [step_decision, run_authorizer, hst]
+  rfl
+
+/-- … in particular from a freshly built handler. -/
+theorem decision_depends_only_on_request_init (cfg : Config) (hist : List Request) (r : Request) :
+    (step (run (init cfg) hist) r).2 = Acl.allows cfg r.req :=
+  decision_depends_only_on_request cfg (init cfg) rfl hist r
+
+/-- (8) every decision of a session is the pure decision of its own request -/
+theorem session_decisions_eq (cfg : Config) (st : State) (hst : st.authorizer = newAuthorizer cfg) (reqs : List Request) :
+    decisions st reqs = reqs.map fun r => Acl.allows cfg r.req := by
+  induction reqs generalizing st with
+  | nil => rfl
+  | cons r rest ih =>
+    simp only [decisions, List.map_cons]
+    rw [ih (step st r).1 (by rw [step_authorizer, hst]), step_decision, hst]
+    rfl
+
+/-- (9) what was asked earlier — by whom, about what, allowed or denied — does not matter -/
+theorem decision_history_independent (cfg : Config) (st st' : State)
+    (hst : st.authorizer = newAuthorizer cfg) (hst' : st'.authorizer = newAuthorizer cfg)
+    (hist hist' : List Request) (r r' : Request) (hreq : r.req = r'.req) :
+    (step (run st hist) r).2 = (step (run st' hist') r').2 := by
+  rw [decision_depends_only_on_request cfg st hst, decision_depends_only_on_request cfg st' hst', hreq]
+
+/-- (10) the gate behind the session: after ANY history of gated requests, a request all of whose items the pure
+ACL decision denies leaves the store as it is and is answered `denied` item by item. -/
+theorem session_denied_noop (cfg : Config) (s0 : State × Store) (h0 : s0.1.authorizer = newAuthorizer cfg)
+    (hist : List GReq) (g : GReq) (hg : g.gran ≠ .none) (hne : g.names ≠ [])
+    (hden : ∀ x ∈ g.names, Acl.allows cfg ⟨g.principal, g.action, g.resource, x.2⟩ = false) :
+    (stepG (runG s0 hist) g).1.2 = (runG s0 hist).2 ∧ (stepG (runG s0 hist) g).2 = g.names.map fun _ => .denied := by
+  have ha : (runG s0 hist).1.authorizer = newAuthorizer cfg := by rw [runG_authorizer, h0]
+  have he := stepG_eq (runG s0 hist) g
+  rw [ha] at he
+  have hd := denied_is_noop g.gran g.eff (runG s0 hist).2
+    (g.names.map fun x => ⟨x.1, allowsWith matchesRule (newAuthorizer cfg) ⟨g.principal, g.action, g.resource, x.2⟩⟩)
+    hg (by cases hn : g.names with
+           | nil => exact absurd hn hne
+           | cons a t => simp)
+    (by
+      intro it hit
+      obtain ⟨x, hx, rfl⟩ := List.mem_map.mp hit
+      exact hden x hx)
+  rw [hd] at he
+  have h1 := congrArg Prod.fst he
+  have h2 := congrArg Prod.snd he
+  simp only [List.map_map] at h1 h2
+  exact ⟨h1, by rw [h2]; rfl⟩
+
+/-- (11) per-item gates in a session: a resource all of whose items the pure ACL decision denies keeps its value,
+whatever the other items of the request do and whatever happened before. -/
+theorem session_perItem_denied_untouched (cfg : Config) (s0 : State × Store) (h0 : s0.1.authorizer = newAuthorizer cfg)
+    (hist : List GReq) (g : GReq) (hg : g.gran = .perItem) (n : Nat)
+    (hden : ∀ x ∈ g.names, x.1 = n → Acl.allows cfg ⟨g.principal, g.action, g.resource, x.2⟩ = false) :
+    lookup (stepG (runG s0 hist) g).1.2 n = lookup (runG s0 hist).2 n := by
+  have ha : (runG s0 hist).1.authorizer = newAuthorizer cfg := by rw [runG_authorizer, h0]
+  have he := congrArg Prod.fst (stepG_eq (runG s0 hist) g)
+  rw [ha, hg] at he
+  simp only at he
+  rw [he]
+  apply perItem_denied_untouched
+  intro it hit hn
+  obtain ⟨x, hx, rfl⟩ := List.mem_map.mp hit
+  exact hden x hx hn
+
+/-! the memoising handler (the ambiguous joined key) does not have the property -/
+def cfgAlice : Config :=
+  { enabled := true, defaultPolicy := "deny".toList,
+    principals := [{ name := "alice".toList, allow := [⟨"produce".toList, "topic".toList, "orders-*".toList⟩], deny := [] }] }
+def reqAlice : Request := { req := ⟨"alice".toList, "produce".toList, "topic".toList, "orders-x|secret".toList⟩ }
+def reqOther : Request := { req := ⟨"alice|orders-x".toList, "produce".toList, "topic".toList, "secret".toList⟩ }
+
+/-- (12) a decision cache keyed by `action|resource|principal|name`: after alice's request the rule-less principal
+`alice|orders-x` is allowed to produce to `secret`. -/
+theorem memoised_decisions_violate :
+    ∃ (cfg : Config) (hist : List Request) (r : Request),
+      (stepMemo (runMemo ⟨init cfg, []⟩ hist) r).2 ≠ Acl.allows cfg r.req :=
+  ⟨cfgAlice, [reqAlice], reqOther, by decide⟩
+
+/-! non-vacuity of the session theorems: the same two requests through the handler at HEAD -/
+example : Acl.allows cfgAlice reqAlice.req = true ∧ Acl.allows cfgAlice reqOther.req = false := by decide
+example : (step (run (init cfgAlice) [reqAlice]) reqOther).2 = false := by decide
+example : decisions (init cfgAlice) [reqOther, reqAlice, reqOther, reqAlice] = [false, true, false, true] := by decide
+example : joinKey reqAlice.req = joinKey reqOther.req := by decide
+example : (run (init cfgAlice) [reqOther, reqOther]).deniedTotal = 2
+    ∧ (run (init cfgAlice) [reqOther, reqOther]).authLogLast.length = 1 := by decide
+-- the gate behind the session: alice's (allowed) item changes its resource, the other principal's (denied) does not
+def gAlice : GReq := ⟨"alice".toList, "produce".toList, "topic".toList, .perItem, [(1, "orders-x|secret".toList)], (· + 1), 0⟩
+def gOther : GReq := ⟨"alice|orders-x".toList, "produce".toList, "topic".toList, .perItem, [(7, "secret".toList)], (· + 1), 0⟩
+example : (runG (init cfgAlice, [(7, 5)]) [gAlice]).2 = [(7, 5), (1, 1)] := by decide
+example : (stepG (runG (init cfgAlice, [(7, 5)]) [gAlice]) gOther).1.2 = [(7, 5), (1, 1)]
+    ∧ (stepG (runG (init cfgAlice, [(7, 5)]) [gAlice]) gOther).2 = [.denied] := by decide
 
 end KafVerif.C24
